@@ -36,6 +36,9 @@ func (n *Node) NodeClass(ctx context.Context) (ua.NodeClass, error) {
 	if err != nil {
 		return 0, err
 	}
+	if v == nil {
+		return 0, ua.StatusBadTypeMismatch
+	}
 	return ua.NodeClass(v.Int()), nil
 }
 
@@ -45,7 +48,14 @@ func (n *Node) BrowseName(ctx context.Context) (*ua.QualifiedName, error) {
 	if err != nil {
 		return nil, err
 	}
-	return v.Value().(*ua.QualifiedName), nil
+	if v == nil {
+		return nil, ua.StatusBadTypeMismatch
+	}
+	name, ok := v.Value().(*ua.QualifiedName)
+	if !ok {
+		return nil, ua.StatusBadTypeMismatch
+	}
+	return name, nil
 }
 
 // Description returns the description of the node.
@@ -54,7 +64,14 @@ func (n *Node) Description(ctx context.Context) (*ua.LocalizedText, error) {
 	if err != nil {
 		return nil, err
 	}
-	return v.Value().(*ua.LocalizedText), nil
+	if v == nil {
+		return nil, ua.StatusBadTypeMismatch
+	}
+	text, ok := v.Value().(*ua.LocalizedText)
+	if !ok {
+		return nil, ua.StatusBadTypeMismatch
+	}
+	return text, nil
 }
 
 // DisplayName returns the display name of the node.
@@ -63,7 +80,14 @@ func (n *Node) DisplayName(ctx context.Context) (*ua.LocalizedText, error) {
 	if err != nil {
 		return nil, err
 	}
-	return v.Value().(*ua.LocalizedText), nil
+	if v == nil {
+		return nil, ua.StatusBadTypeMismatch
+	}
+	text, ok := v.Value().(*ua.LocalizedText)
+	if !ok {
+		return nil, ua.StatusBadTypeMismatch
+	}
+	return text, nil
 }
 
 // AccessLevel returns the access level of the node.
@@ -74,7 +98,14 @@ func (n *Node) AccessLevel(ctx context.Context) (ua.AccessLevelType, error) {
 	if err != nil {
 		return 0, err
 	}
-	return ua.AccessLevelType(v.Value().(uint8)), nil
+	if v == nil {
+		return 0, ua.StatusBadTypeMismatch
+	}
+	level, ok := v.Value().(uint8)
+	if !ok {
+		return 0, ua.StatusBadTypeMismatch
+	}
+	return ua.AccessLevelType(level), nil
 }
 
 // HasAccessLevel returns true if all bits from mask are
@@ -93,7 +124,14 @@ func (n *Node) UserAccessLevel(ctx context.Context) (ua.AccessLevelType, error) 
 	if err != nil {
 		return 0, err
 	}
-	return ua.AccessLevelType(v.Value().(uint8)), nil
+	if v == nil {
+		return 0, ua.StatusBadTypeMismatch
+	}
+	level, ok := v.Value().(uint8)
+	if !ok {
+		return 0, ua.StatusBadTypeMismatch
+	}
+	return ua.AccessLevelType(level), nil
 }
 
 // HasUserAccessLevel returns true if all bits from mask are
@@ -206,6 +244,10 @@ func (n *Node) References(ctx context.Context, refType uint32, dir ua.BrowseDire
 }
 
 func (n *Node) browseNext(ctx context.Context, results []*ua.BrowseResult) ([]*ua.ReferenceDescription, error) {
+	// there is one result for the one node which was browsed
+	if len(results) != 1 {
+		return nil, ua.StatusBadUnknownResponse
+	}
 	refs := results[0].References
 	for len(results[0].ContinuationPoint) > 0 {
 		req := &ua.BrowseNextRequest{
@@ -217,6 +259,9 @@ func (n *Node) browseNext(ctx context.Context, results []*ua.BrowseResult) ([]*u
 			return nil, err
 		}
 		results = resp.Results
+		if len(results) != 1 {
+			return nil, ua.StatusBadUnknownResponse
+		}
 		refs = append(refs, results[0].References...)
 	}
 	return refs, nil
